@@ -137,13 +137,26 @@ def _c02_oracle(tr, origin, meta):
                 if u in se and se[u][0]['compmap'].get(t) != v:
                     out.append(dict(signature='not-last-write', origin=origin,
                                     what='at quiescence peer %d holds %s for component %d of uuid %s, last write was %s' % (p, se[u][0]['compmap'].get(t), t, u, v)))
+    for (h, t, v1, P) in (meta or {}).get('causal', []):
+        # a causal follow-up whose first value had NOT reached the second writer when it wrote is a
+        # genuine conflict: nothing is demanded of that key then
+        received = seen = False
+        for ev in tr['events']:
+            if ev[0] == 'frame' and ev[1].peer == P:
+                for frm, m in ev[1].rcv:
+                    if m[0] == 'comp' and m[1] == h and m[2] == str(t) and m[3] == v1:
+                        received = True
+            if ev[0] == 'op' and ev[1] == P and ev[2][0] == 'write' and ev[2][1] == h and ev[2][2] == str(t) and received:
+                seen = True
+        if not seen:
+            out = [f for f in out if not (('component %d of uuid %s' % (t, h)) in f['what'])]
     return out
 
 
 def run_c02(ctx):
     n = _tier(ctx, 24, 300)
     jobs, metas = _jobs_from(scen.values_clean, 'C02', ctx['seed'], n)
-    jobs = pc.corpus_jobs(['S1_*.scn', 'S2_*.scn', 'S15*.scn']) + jobs
+    jobs = pc.corpus_jobs(['S1_*.scn', 'S2_*.scn', 'S15*.scn', 'S22_*.scn']) + jobs
     out = pc.run_scenarios('C02', ctx, jobs, [_with_meta(metas, _c02_oracle)], nontrivial=pc.received_kinds)
     nabs = _absval(out, lambda name: sorted(metas[name]['last_value'].keys()) if name in metas else [])
     out['opstats']['value_model_replays'] = nabs
